@@ -216,12 +216,12 @@ class Machine:
         self.sites = {}          # (fn path, bb) -> {'kind', 'ok': visits decided true, 'unknown': visits with opaque operands, 'fail': visits decided false}
 
     # ------------------------------------------------------------------ entry
-    def run(self, body, args, holders=()):
+    def run(self, body, args, holders=(), inst=None):
         """args: values of the parameters; holders: values placed in the root holder frame (index 0), addressed by
         Ref(0, k)."""
         root = Frm(None, {k: v for k, v in enumerate(holders)})
         env = {i + 1: a for i, a in enumerate(args)}
-        st = State([root, Frm(body, env, 0, None, None, self._gints_of(body, None), None, body.rec["path"])])
+        st = State([root, Frm(body, env, 0, None, None, self._gints_of(body, None), None, inst or body.rec["path"])])
         self.out = []
         work = [st]
         while work:
@@ -736,11 +736,11 @@ class Machine:
         fr = s.frames[fi]
         fk = _fnkey(t.get("fn"), t)
         # inside a generic function analysed for one instance: the callee as resolved for that instance
-        if fr.inst and t.get("fn") is not None and (t["fn"].get("res_def") is None or t["fn"].get("res_def") == t["fn"].get("def")):
+        if fr.inst and t.get("fn") is not None:
             irec = self.F.instances.get(fr.inst)
             if irec and irec.get("expanded"):
                 for c in irec["calls"]:
-                    if c.get("bb") == fr.bb and c.get("def") and c["def"] != fk.d:
+                    if c.get("bb") == fr.bb and c.get("def") and (c["def"] != fk.d or (c.get("inst") and c["inst"] != fk.i)):
                         nf = dict(t["fn"])
                         nf["res_def"], nf["res_inst"] = c["def"], c.get("inst") or c["def"]
                         fk = FnKey(nf)
